@@ -64,16 +64,15 @@ def valid_text(rnd, ca, plat, version, a, seq=None):
     toks += spell_side(rnd, plat, a["dst"])
     toks += spell_port(rnd, proto, plat, version, a["dport"], tbl)
     # option words in any order (a log keyword may stand before a flag or a key/value option)
-    units = [[f] for f in a["flags"]] + [list(o) for o in a.get("opts", [])] + [[l] for l in a["logs"]]
+    units = [("flag", [f]) for f in a["flags"]] + [("opt", o) for o in a.get("opts", [])] + [("log", [l]) for l in a["logs"]]
     if len(units) > 1 and rnd.random() < 0.4:
         rnd.shuffle(units)
         # the abstract entry states the order in which the words were written (oracles compare in text order)
-        logs_set, flags_set = set(a["logs"]), set(a["flags"])
-        a["flags"] = [u[0] for u in units if len(u) == 1 and u[0] in flags_set]
-        a["logs"] = [u[0] for u in units if len(u) == 1 and u[0] in logs_set and u[0] not in flags_set]
+        a["flags"] = [w[0] for k, w in units if k == "flag"]
+        a["logs"] = [w[0] for k, w in units if k == "log"]
         if "opts" in a:
-            a["opts"] = [tuple(u) if isinstance(a["opts"][0], tuple) else list(u) for u in units if len(u) == 2]
-    toks += [t for u in units for t in u]
+            a["opts"] = [w for k, w in units if k == "opt"]
+    toks += [t for _, w in units for t in w]
     return toks
 
 
